@@ -67,9 +67,15 @@ def _cargo_env():
     return env
 
 
-def build(need_scrut_bin=False):
+HARNESS_BROKEN = [False]     # set by build(allow_broken_harness=True) when the harness does not compile against /repo
+
+
+def build(need_scrut_bin=False, allow_broken_harness=False):
     """Build the harness (path dependency on /repo, feature `verif`) and optionally the scrut binary
-    with the hooks enabled. Serialised by a lock file so that concurrent checks share one build."""
+    with the hooks enabled. Serialised by a lock file so that concurrent checks share one build.
+    allow_broken_harness: a check that also has a leg driving only the scrut binary goes on with that leg when the harness
+    no longer compiles against /repo's library (an internal signature changed): a violation that leg finds is reported,
+    otherwise the check still ends as a tool error (exit 2)."""
     os.makedirs(WORKROOT, exist_ok=True)
     t0 = time.time()
     with open(os.path.join(WORKROOT, ".build.lock"), "w") as lock:
@@ -82,7 +88,10 @@ def build(need_scrut_bin=False):
             cwd=HARNESS, env=_cargo_env(), stdout=subprocess.PIPE, stderr=subprocess.STDOUT, text=True)
         if r.returncode != 0:
             log(r.stdout[-4000:])
-            tool_error("harness build failed (does /repo still compile with --features verif?)")
+            if not (allow_broken_harness and need_scrut_bin):
+                tool_error("harness build failed (does /repo still compile with --features verif?)")
+            log("harness build failed; going on with the legs that drive only the scrut binary")
+            HARNESS_BROKEN[0] = True
         if need_scrut_bin:
             r = subprocess.run(
                 ["cargo", "build", "--offline", "--quiet", "--features", "verif", "--bin", "scrut",
